@@ -403,7 +403,12 @@ def dispatch(ctx):
 
 RULES["R07.3"] += " | Softmax::backward: every result is Tensor::single(v).reshape(<the parameter's own shape>)"
 
+RULES["R07.1"] += " | entries-stay-in-place (who-may-permute): over every function of the property's modules, no Vec/slice operation that moves entries to other positions (reverse, swap, rotate, sort .., mem::swap of two entries) outside the table of sites confirmed on the pinned tree (common.PERMUTING_SITES)"
+
+
 def run(ctx):
+    from .common import no_permuting_ops
+    ctx.guard("R07.1", "entries-stay-in-place", no_permuting_ops, ctx, "R07.1", "activation", {"src/activation.rs"}, 20)
     for kind in ("ReLU", "LeakyReLU", "Sigmoid", "Tanh"):
         res = {}
         for d in ("forward", "backward"):
